@@ -28,10 +28,11 @@ OPERATION_CONCILIATION = (SupvisorsStates.OPERATION, SupvisorsStates.CONCILIATIO
 def valid(rpc):
     """Structural validity the code relies on everywhere (DESIGN 1.4, last bullet; established by
     Supvisors.__init__ / SupvisorsStateModes.__init__ / Context.__init__ and kept by add_instance): one global
-    Supvisors structure shared by all components, and the local instance has its StateModes / status entries."""
+    Supvisors structure shared by all components, the local instance has its StateModes entry and a non-empty
+    identifier ('' is the "no Master" value of master_identifier)."""
     sv = rpc.supvisors
     return (sv.fsm.supvisors is sv and sv.state_modes.supvisors is sv and sv.context.supvisors is sv
-            and sv.mapper.local_identifier in sv.state_modes.instance_state_modes)
+            and sv.mapper.local_identifier in sv.state_modes.instance_state_modes and sv.mapper.local_identifier != '')
 
 
 def apps_valid(context):
@@ -691,3 +692,298 @@ class RestartProcess:
 
     def exc_RPCError_rejected_cleanly(self, exc):
         return rejected_cleanly(exc)
+
+
+@contract('rpcinterface:RPCInterface.start_any_process', props=['C17'])
+class StartAnyProcess:
+    """'start ... in OPERATION only'; unknown strategy INCORRECT_PARAMETERS; every escaping exception is an RPCError
+    (start_process is inlined: the namespec passed is the one of a process found in the Context)"""
+    raises = ('RPCError',)
+    types = {'wait': 'bool', 'extra_args': 'str', 'regex': 'str'}
+    type_variants = [{'strategy': 'str'}, {'strategy': 'int'}, {'strategy': 'bool'}, {'strategy': 'float'},
+                     {'strategy': 'List[str]'}]
+    inline = ['rpcinterface:RPCInterface.start_process']
+
+    def pre_valid(self):
+        return valid(self) and procs_valid(self.supvisors.context)
+
+    def loop0_inv(self, namespec):
+        return namespec is None
+
+    def loop0_modifies(self):
+        return []
+
+    def post_served_only_when_acceptable(self, strategy, old):
+        return fsm_state(old.self) == SupvisorsStates.OPERATION and valid_strategy(strategy, StartingStrategies)
+
+    def post_no_stop_no_state_change(self):
+        return no_effect('stopper.stop_application', 'stopper.stop_process', 'stopper.restart_process',
+                         'stopper.restart_application', 'fsm.set_state', 'fsm.next')
+
+    def exc_RPCError_bad_state(self, exc, old):
+        return (exc.code == BAD_STATE) == (fsm_state(old.self) != SupvisorsStates.OPERATION)
+
+    def exc_RPCError_codes(self, strategy, exc, old):
+        return (implies(exc.code == Faults.INCORRECT_PARAMETERS, not valid_strategy(strategy, StartingStrategies))
+                and exc.code != NOT_MANAGED)
+
+    def exc_RPCError_invalid_parameters(self, strategy, exc, old):
+        return implies(fsm_state(old.self) == SupvisorsStates.OPERATION
+                       and not valid_strategy(strategy, StartingStrategies), exc.code == Faults.INCORRECT_PARAMETERS)
+
+    def exc_RPCError_rejected_cleanly(self, exc):
+        return rejected_cleanly(exc)
+
+
+# ------------------------------------------------------------------------------------------ other commands
+@contract('rpcinterface:RPCInterface.conciliate', props=['C17'])
+class Conciliate:
+    """'conciliate in CONCILIATION ... otherwise raises BAD_SUPVISORS_STATE without any effect', 'unknown strategies
+    INCORRECT_PARAMETERS'"""
+    raises = ('RPCError',)
+    returns = 'bool'
+    type_variants = [{'strategy': 'str'}, {'strategy': 'int'}, {'strategy': 'bool'}, {'strategy': 'float'},
+                     {'strategy': 'List[str]'}]
+
+    def pre_valid(self):
+        return valid(self)
+
+    def post_served_only_when_acceptable(self, strategy, old):
+        return (fsm_state(old.self) == SupvisorsStates.CONCILIATION
+                and valid_strategy(strategy, ConciliationStrategies))
+
+    def post_conciliation_iff_not_user(self, strategy, result):
+        user = designates(strategy, ConciliationStrategies.USER)
+        return (result == (not user) and count_effects('conciliate_conflicts') == (0 if user else 1)
+                and no_effect('fsm.set_state', 'fsm.next'))
+
+    def exc_RPCError_bad_state(self, exc, old):
+        return (exc.code == BAD_STATE) == (fsm_state(old.self) != SupvisorsStates.CONCILIATION)
+
+    def exc_RPCError_incorrect_parameters(self, strategy, exc, old):
+        return (exc.code in (BAD_STATE, Faults.INCORRECT_PARAMETERS)
+                and implies(exc.code == Faults.INCORRECT_PARAMETERS,
+                            not valid_strategy(strategy, ConciliationStrategies)))
+
+    def exc_RPCError_rejected_cleanly(self, exc):
+        return rejected_cleanly(exc)
+
+
+@contract('rpcinterface:RPCInterface.restart_sequence', props=['C17'])
+class RestartSequence:
+    """'restart_sequence in OPERATION only ... otherwise raises BAD_SUPVISORS_STATE without any effect' (the method
+    also answers BAD_SUPVISORS_STATE in OPERATION while starting / stopping jobs are in progress somewhere)"""
+    raises = ('RPCError',)
+    types = {'wait': 'bool'}
+
+    def pre_valid(self):
+        return valid(self)
+
+    def post_served_only_in_operation(self, old):
+        return fsm_state(old.self) == SupvisorsStates.OPERATION
+
+    def post_sequence_requested(self):
+        return (count_effects('starter.start_applications') == 1
+                and no_effect('stopper.stop_application', 'stopper.stop_process', 'fsm.set_state', 'fsm.next'))
+
+    def exc_RPCError_bad_state(self, exc, old):
+        return implies(fsm_state(old.self) != SupvisorsStates.OPERATION, exc.code == BAD_STATE)
+
+    def exc_RPCError_codes(self, exc):
+        return exc.code in (BAD_STATE, Faults.ABNORMAL_TERMINATION)
+
+    def exc_RPCError_rejected_cleanly(self, exc):
+        return rejected_cleanly(exc)
+
+
+@contract('rpcinterface:RPCInterface.enable', props=['C17'])
+class Enable:
+    """'enable ... in OPERATION only ... otherwise raises BAD_SUPVISORS_STATE without any effect'; unknown program
+    BAD_NAME"""
+    raises = ('RPCError',)
+    types = {'wait': 'bool'}
+
+    def pre_valid(self):
+        return valid(self)
+
+    def post_served_only_when_acceptable(self, program_name, old):
+        return (fsm_state(old.self) == SupvisorsStates.OPERATION
+                and program_name in old.self.supvisors.server_options.program_configs)
+
+    def post_enabled(self, program_name):
+        return (count_effects('supervisor_updater.enable_program') == 1
+                and effect_at('supervisor_updater.enable_program', 0)[0] == program_name
+                and no_effect('starter.start_process', 'stopper.stop_process', 'fsm.set_state', 'fsm.next'))
+
+    def exc_RPCError_bad_state(self, exc, old):
+        return (exc.code == BAD_STATE) == (fsm_state(old.self) != SupvisorsStates.OPERATION)
+
+    def exc_RPCError_bad_name(self, program_name, exc, old):
+        return (exc.code in (BAD_STATE, Faults.BAD_NAME)
+                and implies(exc.code == Faults.BAD_NAME,
+                            program_name not in old.self.supvisors.server_options.program_configs))
+
+    def exc_RPCError_rejected_cleanly(self, exc):
+        return rejected_cleanly(exc)
+
+
+# ------------------------------------------------------------------------------------------ restart / shutdown / end_sync
+def master_known(rpc):
+    sv = rpc.supvisors
+    return sv.state_modes.instance_state_modes[sv.mapper.local_identifier].master_identifier != ''
+
+
+def fsm_valid(fsm):
+    sv = fsm.supvisors
+    return (sv.state_modes.supvisors is sv and sv.mapper.local_identifier in sv.state_modes.instance_state_modes
+            and sv.mapper.local_identifier != '')
+
+
+def fsm_master(fsm):
+    sv = fsm.supvisors
+    return sv.state_modes.instance_state_modes[sv.mapper.local_identifier].master_identifier
+
+
+@contract('statemachine:FiniteStateMachine.on_restart', props=['C17'])
+class FsmOnRestart:
+    """internal handler behind the restart XML-RPC (contract from the code): the request is applied (Master) or
+    re-routed to the known Master; RuntimeError exactly when no Master is known - which the XML-RPC must turn into
+    BAD_SUPVISORS_STATE ('any raised exception is an RPCError, incl. through fsm.on_restart', DESIGN C17)"""
+    raises = ('RuntimeError',)
+
+    def pre_valid(self):
+        return fsm_valid(self)
+
+    def post_applied_or_rerouted(self, old):
+        return (fsm_master(old.self) != ''
+                and count_effects('fsm.set_state') + count_effects('rpc_handler.send_restart_all') == 1)
+
+    def exc_RuntimeError_no_master(self, old):
+        return fsm_master(old.self) == '' and no_effect() and unchanged()
+
+
+@contract('statemachine:FiniteStateMachine.on_shutdown', props=['C17'])
+class FsmOnShutdown:
+    """internal handler behind the shutdown XML-RPC (contract from the code): ValueError exactly when no Master is
+    known"""
+    raises = ('ValueError',)
+
+    def pre_valid(self):
+        return fsm_valid(self)
+
+    def post_applied_or_rerouted(self, old):
+        return (fsm_master(old.self) != ''
+                and count_effects('fsm.set_state') + count_effects('rpc_handler.send_shutdown_all') == 1)
+
+    def exc_ValueError_no_master(self, old):
+        return fsm_master(old.self) == '' and no_effect() and unchanged()
+
+
+@contract('statemachine:FiniteStateMachine.on_end_sync', props=['C17'])
+class FsmOnEndSync:
+    """internal handler behind the end_sync XML-RPC: 'any raised exception is an RPCError, incl. through
+    fsm.on_end_sync' - nothing escapes; an election takes place only when the user gave no Master, then the FSM is
+    re-evaluated once (which may change everything, including the Master: no claim on the final state)"""
+    raises = ()
+
+    def pre_valid(self):
+        return fsm_valid(self)
+
+    def post_master_then_next(self, master_identifier):
+        return (count_effects('fsm.next') == 1
+                and implies(master_identifier != '', no_effect('state_modes.select_master'))
+                and implies(master_identifier == '', count_effects('state_modes.select_master') == 1))
+
+
+@contract('rpcinterface:RPCInterface.restart', props=['C17'])
+class Restart:
+    """'restart/shutdown from DISTRIBUTION on - and otherwise raises BAD_SUPVISORS_STATE without any effect'; docstring:
+    'BAD_SUPVISORS_STATE if Supvisors is still in state SYNCHRONIZATION or has no Master instance to perform the
+    request'.  fsm.on_restart is inlined (real code)."""
+    raises = ('RPCError',)
+    returns = 'bool'
+    inline = ['statemachine:FiniteStateMachine.on_restart']
+
+    def pre_valid(self):
+        return valid(self)
+
+    def post_served_only_from_distribution(self, old):
+        return fsm_state(old.self) in FROM_DISTRIBUTION
+
+    def post_applied_or_rerouted(self):
+        return (count_effects('fsm.set_state') + count_effects('rpc_handler.send_restart_all') == 1
+                and no_effect('rpc_handler.send_shutdown_all'))
+
+    def exc_RPCError_bad_state(self, exc, old):
+        return exc.code == BAD_STATE and (fsm_state(old.self) not in FROM_DISTRIBUTION or not master_known(old.self))
+
+    def exc_RPCError_rejected_cleanly(self, exc):
+        return rejected_cleanly(exc)
+
+
+@contract('rpcinterface:RPCInterface.shutdown', props=['C17'])
+class Shutdown:
+    """'restart/shutdown from DISTRIBUTION on - and otherwise raises BAD_SUPVISORS_STATE without any effect'.
+    fsm.on_shutdown is inlined (real code)."""
+    raises = ('RPCError',)
+    returns = 'bool'
+    inline = ['statemachine:FiniteStateMachine.on_shutdown']
+
+    def pre_valid(self):
+        return valid(self)
+
+    def post_served_only_from_distribution(self, old):
+        return fsm_state(old.self) in FROM_DISTRIBUTION
+
+    def post_applied_or_rerouted(self):
+        return (count_effects('fsm.set_state') + count_effects('rpc_handler.send_shutdown_all') == 1
+                and no_effect('rpc_handler.send_restart_all'))
+
+    def exc_RPCError_bad_state(self, exc, old):
+        return exc.code == BAD_STATE and (fsm_state(old.self) not in FROM_DISTRIBUTION or not master_known(old.self))
+
+    def exc_RPCError_rejected_cleanly(self, exc):
+        return rejected_cleanly(exc)
+
+
+@contract('rpcinterface:RPCInterface.end_sync', props=['C17'])
+class EndSync:
+    """'end_sync in SYNCHRONIZATION with the USER option ... and otherwise raises BAD_SUPVISORS_STATE without any
+    effect', 'Unknown ... instance names raise BAD_NAME' (DESIGN: SYNCHRONIZATION and USER and no Master yet; the code
+    answers NOT_APPLICABLE, not BAD_SUPVISORS_STATE, when USER is not in synchro_options - the statement only requires
+    that the request is not served, see post_served_only_when_acceptable).  fsm.on_end_sync is inlined (real code)."""
+    raises = ('RPCError',)
+    returns = 'bool'
+    types = {'master': 'str'}
+    inline = ['statemachine:FiniteStateMachine.on_end_sync']
+
+    def pre_valid(self):
+        sv = self.supvisors
+        return (valid(self)
+                and forall(str, lambda i: implies(i in sv.mapper.instances, i in sv.context.instances)))
+
+    def post_served_only_when_acceptable(self, old):
+        return (fsm_state(old.self) == SupvisorsStates.SYNCHRONIZATION and not master_known(old.self)
+                and SynchronizationOptions.USER in old.self.supvisors.options.synchro_options)
+
+    def post_known_running_master(self, master, old):
+        sv = old.self.supvisors
+        return implies(master != '', exists(str, lambda i: i in sv.mapper.instances
+                                            and sv.context.instances[i]._state == SupvisorsInstanceStates.RUNNING))
+
+    def post_fsm_triggered_once(self):
+        return count_effects('fsm.next') == 1 and no_effect('starter.start_process', 'stopper.stop_process')
+
+    def exc_RPCError_bad_state(self, exc, old):
+        return (implies(fsm_state(old.self) != SupvisorsStates.SYNCHRONIZATION, exc.code == BAD_STATE)
+                and implies(exc.code == BAD_STATE,
+                            fsm_state(old.self) != SupvisorsStates.SYNCHRONIZATION or master_known(old.self)))
+
+    def exc_RPCError_codes(self, master, exc, old):
+        return (exc.code in (BAD_STATE, NOT_APPLICABLE, Faults.BAD_NAME, Faults.INCORRECT_PARAMETERS, Faults.NOT_RUNNING)
+                and implies(exc.code == NOT_APPLICABLE,
+                            SynchronizationOptions.USER not in old.self.supvisors.options.synchro_options)
+                and implies(exc.code == Faults.BAD_NAME, master != ''))
+
+    def exc_RPCError_nothing_triggered(self, exc):
+        return no_effect() and unchanged()
